@@ -15,11 +15,11 @@ use std::io::{BufRead, Write};
 /// `<tag><i> <value text> #<number of references> <first|same|moved>` or `<tag><i> P <class>`.
 #[macro_export]
 macro_rules! request {
-    ($out:expr, $tag:expr, $n:expr, $u:expr, $tr:path) => {{
+    ($out:expr, $tag:expr, $n:expr, $u:expr, $tr:path $(, $extra:expr)*) => {{
         let mut first: Option<Vec<usize>> = None;
         for i in 1..=$n {
             let r = std::panic::catch_unwind(std::panic::AssertUnwindSafe(|| {
-                let v = <unimock::Unimock as $tr>::f(&$u);
+                let v = <unimock::Unimock as $tr>::f(&$u $(, $extra)*);
                 $crate::obs::see(&v)
             }));
             match r {
